@@ -45,10 +45,24 @@ def svc_raises(node, client, state):
             it = client.term(call.args[0], state)
             if 'on_receive_find' in it or 'on_receive_move' in it:   # documented to return generators
                 out.append('EventHandlingError')   # the application's generator runs when advanced
+        # what on_receive_find / on_receive_move hand back is iterated, nothing more: any iterable will do (a list, iter(..)).
+        # close() / send() / throw() exist on generator objects only
+        if isinstance(call.func, ast.Attribute) and call.func.attr in GENERATOR_ONLY:
+            recv = client.term(call.func.value, state)
+            if ('on_receive_find' in recv or 'on_receive_move' in recv) and not recv.endswith(')') or \
+                    (recv.endswith(')') and recv.split('(')[0].rsplit('.', 1)[-1] in ('on_receive_find', 'on_receive_move', 'iter')
+                     and ('on_receive_find' in recv or 'on_receive_move' in recv)):
+                guarded = any(cn in ("+hasattr(%s, '%s')" % (recv, call.func.attr), '+inspect.isgenerator(%s)' % recv,
+                                     '+isinstance(%s, types.GeneratorType)' % recv) for cn in state.conds)
+                if not guarded:
+                    out.append('AttributeError')
     for n in ast.walk(node):
         if isinstance(n, ast.Yield):
             out.append('GeneratorExit')
     return out
+
+
+GENERATOR_ONLY = ('close', 'send', 'throw')
 
 
 def is_response_token(t: str) -> bool:
@@ -166,3 +180,84 @@ def status_rows(repo: Repo):
             else:
                 out.append((lo, hi, typ, ('notclass', one), i))
     return out
+
+
+# --------------------------------------------------------------------------- a message built over another message's command set
+
+def command_set_origin(term: Optional[str]) -> Optional[Tuple[str, str]]:
+    """How a message's command set was obtained from another one: ``M.command_set`` -> (M, 'alias'); ``M.command_set.copy()`` /
+    ``copy.copy(M.command_set)`` / ``Dataset(M.command_set)`` -> (M, 'shallow'); ``copy.deepcopy(M.command_set)`` -> (M, 'deep').
+    (pydicom's Dataset.copy() is ``copy.copy(self)``: a new dict of the same DataElement objects.)"""
+    if not term:
+        return None
+    try:
+        e = ast.parse(term, mode='eval').body
+    except SyntaxError:
+        return None
+
+    def owner(x):
+        if isinstance(x, ast.Attribute) and x.attr in ('command_set', '_command_set'):
+            return ast.unparse(x.value)
+        return None
+    if owner(e):
+        return owner(e), 'alias'
+    if isinstance(e, ast.Call) and isinstance(e.func, ast.Attribute) and e.func.attr == 'copy' and not e.args and owner(e.func.value):
+        return owner(e.func.value), 'shallow'
+    if isinstance(e, ast.Call) and len(e.args) == 1 and not e.keywords and owner(e.args[0]):
+        fn = ast.unparse(e.func)
+        if fn in ('copy.copy', 'Dataset', 'pydicom.Dataset', 'pydicom.dataset.Dataset', 'dataset.Dataset'):
+            return owner(e.args[0]), 'shallow'
+        if fn in ('copy.deepcopy', 'deepcopy'):
+            return owner(e.args[0]), 'deep'
+    return None
+
+
+def response_fields(e: Event, s: SymState, tok: str) -> Dict[str, str]:
+    """fields of the message token as the rules read them: what was set on it, over what the command set it was constructed
+    with already carried (another message of this call whose command set was copied)"""
+    fl = dict(e.fields(tok))
+    org = command_set_origin(fl.get('@command_set'))
+    if org is not None and is_token(org[0]):
+        base = dict(s.fields_of(org[0]))
+        base = {k: v for k, v in base.items() if not k.startswith('@') and k not in ('data_set', '_data_set')}
+        base.update(fl)
+        return base
+    return fl
+
+
+def shared_command_set_problems(repo: Repo, modules=('sopclass',)) -> Tuple[List[str], int]:
+    """The message properties write ``command_set[tag].value``: they change DataElement objects in place.  A message whose
+    command set is another message's -- the same object, or a shallow copy, which holds the same elements -- and that is then
+    written to changes that other message and every sibling made the same way: reports that were handed to send() but not encoded
+    yet go out with the values of a later one.  Only a deep copy gives a message a command set of its own.
+    -> (problems, number of messages constructed over an existing command set)"""
+    probs: List[str] = []
+    n = 0
+    for fi in repo.all_functions():
+        if fi.module.name not in modules or fi.parent is not None:
+            continue
+        if not any(isinstance(x, ast.Attribute) and x.attr in ('command_set', '_command_set') for x in ast.walk(fi.node)):
+            continue
+        a = ServiceAnalysis(repo, fi, inline_names=())
+        seen = set()
+        for e, s in a.log:
+            if e.kind != 'setfield':
+                continue
+            tok = e.callee.rsplit('.', 1)[0]
+            if not is_message_token(tok):
+                continue
+            org = command_set_origin(dict(s.fields_of(tok)).get('@command_set'))
+            if org is None:
+                continue
+            if (tok, org) not in seen:
+                seen.add((tok, org))
+                n += 1
+                if org[1] in ('alias', 'shallow'):
+                    probs.append('%s: the %s created at line %s is given %s command set %s and then written to (line %d: %s): the '
+                                 'property setters change the DataElement objects both hold, so %s and every message made from it the '
+                                 'same way change with it -- a report already handed to send() is encoded later with these values; '
+                                 'copy.deepcopy() gives an independent command set'
+                                 % (fi.qualname, token_class(tok), tok.rsplit('_L', 1)[-1],
+                                    'the' if org[1] == 'alias' else 'a shallow copy (Dataset.copy() / copy.copy()) of the',
+                                    'of ' + org[0], e.line, e.callee.split('.', 1)[1], org[0]))
+    return sorted(set(probs)), n
